@@ -106,9 +106,8 @@ var families = []family{
 		gen: func(n int) string {
 			return chain(n, "{ obj { ...F1 } }", func(i int) string { return fmt.Sprintf("fragment F%d on Obj { a: o { ...F%d } b: o { ...F%d } }", i, i+1, i+1) }, "{ x }")
 		}, quick: []int{5, 10, 20, 40, 80}, thorough: []int{5, 10, 20, 40, 80, 160, 320}},
-	{name: "merge-inline-overlap-nest", about: "overlapping fields nested without fragments: o{o{…}} o{o{…}} at every level",
+	{name: "merge-inline-overlap-nest", about: "the overlapping field reached once directly and once through an inline fragment, fragment spread twice at the root",
 		gen: func(n int) string {
-			// depth n, two copies per level would be 2^n text; instead every level repeats the field twice around ONE shared inner via a fragment
 			return chain(n, "{ obj { ...F1 ...F1 } }", func(i int) string { return fmt.Sprintf("fragment F%d on Obj { o { ...F%d } ... on Obj { o { ...F%d } } }", i, i+1, i+1) }, "{ x }")
 		}, quick: []int{5, 10, 20, 40}, thorough: []int{5, 10, 20, 40, 80, 160}},
 	{name: "merge-cyclic-overlap", about: "fragment cycle with an overlapping pair (fatal stack overflow before the C04 memo fix)",
@@ -149,14 +148,14 @@ var families = []family{
 			}
 			fmt.Fprintf(&b, "fragment F%d on Query { x }\n", n)
 			return b.String()
-		}, quick: []int{10, 100, 400}, thorough: []int{10, 100, 400, 1600}, cost: true},
+		}, quick: []int{10, 30, 60}, thorough: []int{10, 30, 60, 120}, cost: true},
 	{name: "repeated-spread-flat", about: "one fragment of n fields spread n times in one selection set (size 2n; quadratic expansion is allowed)",
 		gen: func(n int) string {
 			return "{ " + rep(n, func(int) string { return "...F " }) + "}\nfragment F on Query { " + rep(n, func(i int) string { return fmt.Sprintf("a%d: x ", i) }) + "}\n"
 		}, quick: []int{10, 50, 100, 200}, thorough: []int{10, 50, 100, 200, 400}, cost: true},
 	{name: "wide-same-field", about: "n occurrences of the same field in one selection set (all pairs compared: quadratic is allowed)",
 		gen:   func(n int) string { return "{ " + rep(n, func(int) string { return "x " }) + "}" },
-		quick: []int{100, 400, 800}, thorough: []int{100, 400, 800, 1600, 3200}, cost: true},
+		quick: []int{50, 100, 200, 400}, thorough: []int{50, 100, 200, 400, 800}, cost: true},
 	{name: "wide-distinct-fields", about: "n differently aliased fields in one selection set",
 		gen:   func(n int) string { return "{ " + rep(n, func(i int) string { return fmt.Sprintf("a%d: x ", i) }) + "}" },
 		quick: []int{100, 1000, 4000}, thorough: []int{100, 1000, 4000, 16000, 64000}, cost: true},
@@ -187,7 +186,7 @@ var families = []family{
 				fmt.Fprintf(&b, "fragment F%d on Query { x ...F%d ...F%d }\n", i, (i+1)%n, (i+n-1)%n)
 			}
 			return b.String()
-		}, quick: []int{2, 10, 100, 400}, thorough: []int{2, 10, 100, 400, 1600}, cost: true},
+		}, quick: []int{2, 10, 30, 60}, thorough: []int{2, 10, 30, 60, 120}, cost: true},
 	{name: "deep-selection-nesting", about: "selection sets nested n deep (n below the parser limit)",
 		gen: func(n int) string {
 			return "{ " + rep(n, func(int) string { return "o { " }) + "x" + strings.Repeat(" }", n) + " }"
